@@ -1946,7 +1946,26 @@ class SymExec(object):
     def _hoist_fork(self, s, st):
         """`f(h(a))` as a statement, where helper h has statements of its own (a guard that raises, a loop): run as
         `tmp = h(a); f(tmp)` so that h's paths fork.  Only when everything evaluated before h(a) is free of effects."""
-        if not self.inline or not isinstance(s, (ast.Expr, ast.Assign, ast.Return)) or not isinstance(s.value, ast.Call):
+        if self.inline and isinstance(s, ast.Return) and isinstance(s.value, ast.Tuple) and getattr(s, '_hoist', None) is None:
+            # `return h(a), rest`: as `tmp = h(a); return tmp, rest`
+            simple = lambda e: all(isinstance(n, (ast.Name, ast.Attribute, ast.Constant, ast.Load)) for n in ast.walk(e))
+            elts = s.value.elts
+            if elts and isinstance(elts[0], ast.Call) and simple(elts[0].func) and all(simple(a) for a in elts[0].args) and not elts[0].keywords \
+                    and all(simple(e) for e in elts[1:]):
+                import copy as _copy
+                tmp = '__hoisted_%d_%d' % (s.lineno, s.col_offset)
+                pre = ast.copy_location(ast.Assign(targets=[ast.copy_location(ast.Name(id=tmp, ctx=ast.Store()), s)], value=elts[0]), s)
+                post = _copy.copy(s)
+                tup = _copy.copy(s.value)
+                tup.elts = [ast.copy_location(ast.Name(id=tmp, ctx=ast.Load()), elts[0])] + list(elts[1:])
+                post.value = tup
+                post._hoist = False
+                pre._hoist = False
+                pre._parent = post._parent = getattr(s, '_parent', None)
+                s._hoist = (pre, post)
+            else:
+                s._hoist = False
+        if not self.inline or not isinstance(s, (ast.Expr, ast.Assign, ast.Return)) or not (isinstance(s.value, ast.Call) or isinstance(getattr(s, '_hoist', None), tuple)):
             return None
         cached = getattr(s, '_hoist', None)
         if cached is None:
@@ -1979,9 +1998,11 @@ class SymExec(object):
             return None
         pre, post = cached
         probe = st.copy()
-        fd_ = self.resolve(self.ev(pre.value.func, probe), probe)
-        if fd_ is None or _expression_like(fd_) or not _forkable(fd_):
-            return None
+        f_ = self.ev(pre.value.func, probe)
+        if f_[0] != 'ifexp':            # (a callee chosen by a conditional is forked per choice by the statement fork)
+            fd_ = self.resolve(f_, probe)
+            if fd_ is None or _expression_like(fd_) or not _forkable(fd_):
+                return None
         first = self._stmt_fork(pre, st)
         if first is None:
             return None
